@@ -176,7 +176,7 @@ PROPS['C06'] = {
     'level': 'exploration',
     'exhaustive_possible': True,
     'runs': [{'name': 'asan', 'flavour': 'asan', 'driver': 'drv_c06'}],
-    'require': {'roundtrip.ok': 50000, 'fields.16bit_rows': 2000, 'fields.8bit_rows': 30, 'load.bytes8-9.recomputed-check.OK': 1000, 'load.bytes8-9.recomputed-check.ERR_UNSUPPORTED': 1000,
+    'require': {'roundtrip.ok': 50000, 'buffers.alignment_mod8.1': 10000, 'buffers.alignment_mod8.7': 10000, 'fields.16bit_rows': 2000, 'fields.8bit_rows': 30, 'load.bytes8-9.recomputed-check.OK': 1000, 'load.bytes8-9.recomputed-check.ERR_UNSUPPORTED': 1000,
                 'load.bytes8-9.recomputed-check.ERR_FORMAT': 1000, 'load.bytes30-31.ERR_CHECKSUM': 1000, 'load.random-with-framing+recomputed-check.OK': 100},
 }
 MANIFEST_TEXT['C06'] = {'technique': 'runtime monitoring: store/load on exact-size heap buffers vs model image codec; exhaustive field sweeps around valid images (ASan/UBSan) + ledger',
